@@ -1437,7 +1437,8 @@ def check_transparency_rich(ctx):
             diffs.append("exception %r vs %r" % (eo, ei))
         if diffs:
             st["disagreements"] += 1
-            ctx.violation("C01:transparency:%s" % c["id"].split("/")[1], "instrumented run of support/rich/%s.py with hooks %s differs from the original run: %s" % (
+            hk_ = set(c["analyses"][0]["hooks"])
+            ctx.violation("C01:transparency:%s:%s" % (c["id"].split("/")[1], "with_decorator_hooks" if hk_ & {"enter_decorator", "exit_decorator"} else "other_hooks"), "instrumented run of support/rich/%s.py with hooks %s differs from the original run: %s" % (
                 c["id"].split("/")[1], c["id"].split("/", 2)[2], "; ".join(diffs)[:300]), {"case": c})
 
 
